@@ -142,7 +142,17 @@ func H_C14(name string, c1, c2, c3, dn int) {
 	rep := s.Report(Src(snaps, 0))
 	dates, cols := drainReport(rep)
 	rows := len(dates)
-	vrt.Assert("rows", rows >= 1 && rows <= n)
+	kfc := func(col string) string {
+		if st.KFCol == nil {
+			return ""
+		}
+		return st.KFCol(cfg, n, col)
+	}
+	if id := kfc("rows"); id != "" {
+		vrt.KnownFinding(id, "rows", rows >= 1 && rows <= n)
+	} else {
+		vrt.Assert("rows", rows >= 1 && rows <= n)
+	}
 	first := n - rows // rows are the last `rows` snapshots
 	for r := 0; r < rows; r++ {
 		vrt.AssertAt("date_consecutive", r, dayOf(dates[r]) == first+r)
@@ -181,7 +191,11 @@ func H_C14(name string, c1, c2, c3, dn int) {
 			d := first + r
 			switch {
 			case c.isNum && c.name == "Close":
-				vrt.AssertEqAt("close", r, c.nums[r], snaps[d].Close)
+				if id != "" {
+					vrt.KnownFindingEqAt(id, "close", r, c.nums[r], snaps[d].Close)
+				} else {
+					vrt.AssertEqAt("close", r, c.nums[r], snaps[d].Close)
+				}
 			case c.isNum && c.name == "Outcome":
 				if outc != nil && d < len(outc) {
 					vrt.AssertEqAt("outcome", r, c.nums[r], outc[d]*100)
